@@ -356,8 +356,9 @@ func sumOracles(run *gen.SumRun) []sumFail {
 
 	// --- C13: a validly signed head inconsistent with the stored one is never accepted
 	for i, r := range run.Results {
+		// (with interference the stored file is another process's and no longer this client's head)
 		c0, ok0 := sumNoteHead(w, stepCfg[i])
-		if !ok0 || len(stepCfg[i]) == 0 {
+		if !ok0 || len(stepCfg[i]) == 0 || len(sc.Interf) > 0 {
 			continue
 		}
 		presented := false
@@ -809,9 +810,9 @@ func sumFaultKinds(path string) []string {
 
 func runC01(c *hx.Ctx) {
 	r := c.Rng
-	budget := &sumBudget{left: 38000}
+	budget := &sumBudget{left: 300000}
 	if c.Tier == "thorough" {
-		budget.left = 600000
+		budget.left = 6000000
 	}
 	nBase := c.N(70)
 	perResp := 3
